@@ -96,7 +96,7 @@ mutual
 theorem foldDesc_eq {σ : Type} (g : σ → J → σ) : (j : J) → (s : σ) → foldDesc g s j = (descendants j).foldl g s
   | .arr xs, s => by simp [foldDesc, descendants, foldDescL_eq g xs]
   | .obj kvs, s => by simp [foldDesc, descendants, foldDescM_eq g kvs]
-  | .null, s | .bool _, s | .int _, s | .flo _, s | .str _, s => by simp [foldDesc, descendants]
+  | .null, s | .bool _, s | .int _, s | .flo _, s | .str _, s | .time _, s => by simp [foldDesc, descendants]
 theorem foldDescL_eq {σ : Type} (g : σ → J → σ) : (xs : List J) → (s : σ) → foldDescL g s xs = (descL xs).foldl g s
   | [], s => by simp [foldDescL, descL]
   | x :: xs, s => by simp [foldDescL, descL, foldDesc_eq g x, foldDescL_eq g xs]
